@@ -58,3 +58,24 @@
     pub open spec fn brv8(x: u8) -> u8 {
         ((x & 1) << 7) | ((x & 2) << 5) | ((x & 4) << 3) | ((x & 8) << 1) | ((x & 16) >> 1) | ((x & 32) >> 3) | ((x & 64) >> 5) | ((x & 128) >> 7)
     }
+    // ---- NTT loop structure (Algorithm 41/42): layer k has len = 128 >> k (forward) / 1 << k (inverse)
+    pub open spec fn pbounded_t(w: T, lo: int, hi: int, b: int) -> bool {
+        forall|i: int| lo <= i < hi ==> -b <= #[trigger] w.0[i] <= b
+    }
+    pub open spec fn pbounded_r(w: R, lo: int, hi: int, b: int) -> bool {
+        forall|i: int| lo <= i < hi ==> -b <= #[trigger] w.0[i] <= b
+    }
+    pub open spec fn ntt_layer_ok(k: int, len: int, m: int) -> bool {
+        (k == 0 && len == 128 && m == 0) || (k == 1 && len == 64 && m == 1) || (k == 2 && len == 32 && m == 3) || (k == 3 && len == 16 && m == 7)
+        || (k == 4 && len == 8 && m == 15) || (k == 5 && len == 4 && m == 31) || (k == 6 && len == 2 && m == 63) || (k == 7 && len == 1 && m == 127)
+        || (k == 8 && len == 0 && m == 255)
+    }
+    pub open spec fn ntt_mid_ok(k: int, start: int, m: int) -> bool {
+        (k == 0 && start == (m - 0) * 256) || (k == 1 && start == (m - 1) * 128) || (k == 2 && start == (m - 3) * 64) || (k == 3 && start == (m - 7) * 32)
+        || (k == 4 && start == (m - 15) * 16) || (k == 5 && start == (m - 31) * 8) || (k == 6 && start == (m - 63) * 4) || (k == 7 && start == (m - 127) * 2)
+    }
+    pub open spec fn intt_layer_ok(k: int, len: int, m: int) -> bool {
+        (k == 0 && len == 1 && m == 256) || (k == 1 && len == 2 && m == 128) || (k == 2 && len == 4 && m == 64) || (k == 3 && len == 8 && m == 32)
+        || (k == 4 && len == 16 && m == 16) || (k == 5 && len == 32 && m == 8) || (k == 6 && len == 64 && m == 4) || (k == 7 && len == 128 && m == 2)
+        || (k == 8 && len == 256 && m == 1)
+    }
